@@ -57,13 +57,16 @@ impl Job {
 }
 
 /// One set of handles over one mapping.
-pub struct HandleSet<'a> {
-    pub mapping: cur::ProguardMapping<'a>,
-    pub cache: cur::ProguardCache<'a>,
-    pub mapper: cur::ProguardMapper<'a>,
-    pub mapper_p: cur::ProguardMapper<'a>,
+/// (Separate lifetime parameters for mapping, cache and mapper: the cache's `remap_frame` needs the
+/// cache borrowed for its whole data lifetime, which relies on `ProguardCache` being covariant; the
+/// harness must keep compiling if some OTHER handle type becomes invariant in its lifetime.)
+pub struct HandleSet<'m, 'c, 'p> {
+    pub mapping: cur::ProguardMapping<'m>,
+    pub cache: cur::ProguardCache<'c>,
+    pub mapper: cur::ProguardMapper<'p>,
+    pub mapper_p: cur::ProguardMapper<'p>,
     /// `.clone()`s of the four handles above (state shared between a handle and its clones is shared state)
-    pub clones: Option<Box<HandleSet<'a>>>,
+    pub clones: Option<Box<HandleSet<'m, 'c, 'p>>>,
 }
 
 /// The bytes the handles borrow from: mapping files and their (aligned) cache files.
@@ -84,20 +87,29 @@ impl Inputs {
 
 /// The shared handles (one or two independent sets). Built once per run; every worker thread
 /// gets `&Shared`.
-pub struct Shared<'a> {
-    pub sets: Vec<HandleSet<'a>>,
+pub struct Shared<'m, 'c, 'p> {
+    pub sets: Vec<HandleSet<'m, 'c, 'p>>,
 }
 
-impl<'a> Shared<'a> {
-    pub fn build(inp: &'a Inputs) -> Option<Shared<'a>> {
+impl<'a> Shared<'a, 'a, 'a> {
+    pub fn build(inp: &'a Inputs) -> Option<Shared<'a, 'a, 'a>> {
+        Self::build_with(inp, true)
+    }
+
+    /// `with_clones = false` skips the cloned handles (deep copies are expensive under Miri).
+    pub fn build_with(inp: &'a Inputs, with_clones: bool) -> Option<Shared<'a, 'a, 'a>> {
         let mut sets = Vec::new();
         for (m, c) in inp.mappings.iter().zip(inp.caches.iter()) {
             let m = cur::ProguardMapping::new(m);
             let cache = cur::ProguardCache::parse(c.as_slice()).ok()?;
             let mapper = cur::ProguardMapper::new(m.clone());
             let mapper_p = cur::ProguardMapper::new_with_param_mapping(m.clone(), true);
-            let clones = HandleSet { cache: cache.clone(), mapper: mapper.clone(), mapper_p: mapper_p.clone(), mapping: m.clone(), clones: None };
-            sets.push(HandleSet { cache, mapper, mapper_p, mapping: m, clones: Some(Box::new(clones)) });
+            let clones = if with_clones {
+                Some(Box::new(HandleSet { cache: cache.clone(), mapper: mapper.clone(), mapper_p: mapper_p.clone(), mapping: m.clone(), clones: None }))
+            } else {
+                None
+            };
+            sets.push(HandleSet { cache, mapper, mapper_p, mapping: m, clones });
         }
         Some(Shared { sets })
     }
@@ -114,7 +126,7 @@ impl<T> ForceShare<T> {
     }
 }
 
-pub fn answer_job<'a>(sh: &'a Shared<'a>, job: &'a Job, step: &mut dyn FnMut() -> bool) -> String {
+pub fn answer_job<'b, 'm, 'c: 'b, 'p: 'b>(sh: &'b Shared<'m, 'c, 'p>, job: &'b Job, step: &mut dyn FnMut() -> bool) -> String {
     let sh = &sh.sets[job.set.min(sh.sets.len() - 1)];
     let sh = match (&sh.clones, job.via_clone) {
         (Some(c), true) => &**c,
@@ -128,7 +140,7 @@ pub fn answer_job<'a>(sh: &'a Shared<'a>, job: &'a Job, step: &mut dyn FnMut() -
     }
 }
 
-fn guarded_answer<'a>(sh: &'a Shared<'a>, job: &'a Job, step: &mut dyn FnMut() -> bool) -> String {
+fn guarded_answer<'b, 'm, 'c: 'b, 'p: 'b>(sh: &'b Shared<'m, 'c, 'p>, job: &'b Job, step: &mut dyn FnMut() -> bool) -> String {
     match guarded(|| answer_job(sh, job, step)) {
         Ok(a) => a,
         Err(p) => format!("PANIC: {}", panic_class(&p)),
@@ -257,6 +269,8 @@ pub fn build_scenario(rng: &mut Rng, mapping: Vec<u8>, max_threads: u64, jobs_pe
             let mut v: Vec<usize> = m.iter().enumerate().filter(|(_, b)| **b == b'\n').map(|(i, _)| i + 1).collect();
             v.push(m.len());
             v.push(0);
+            // out of range: `section` documents a panic; it must stay confined to that one call
+            v.push(m.len() + 5);
             v
         })
         .collect();
@@ -320,6 +334,8 @@ pub fn build_scenario(rng: &mut Rng, mapping: Vec<u8>, max_threads: u64, jobs_pe
 }
 
 pub struct ScenarioResult {
+    /// liveness escapes of the baton (a holder blocked outside the simulator)
+    pub stalls: u64,
     pub violation: Option<(String, String)>,
     pub steps: u64,
     pub switches: u64,
@@ -332,7 +348,7 @@ pub struct ScenarioResult {
 pub fn run_scenario(sc: &Scenario, use_baton: bool) -> ScenarioResult {
     let all_mappings: Vec<Vec<u8>> = std::iter::once(sc.mapping.clone()).chain(sc.mapping2.iter().cloned()).collect();
     let Some(inputs) = Inputs::new(&all_mappings) else {
-        return ScenarioResult { violation: None, steps: 0, switches: 0, schedule_digest: 0, log: 0, jobs: 0 };
+        return ScenarioResult { stalls: 0, violation: None, steps: 0, switches: 0, schedule_digest: 0, log: 0, jobs: 0 };
     };
     let inputs = &inputs;
     // reference: each job alone
@@ -385,6 +401,7 @@ pub fn run_scenario(sc: &Scenario, use_baton: bool) -> ScenarioResult {
                         alone
                     ),
                 )),
+                stalls: 0,
                 steps: 0,
                 switches: 0,
                 schedule_digest: 0,
@@ -396,7 +413,7 @@ pub fn run_scenario(sc: &Scenario, use_baton: bool) -> ScenarioResult {
     let expected: Vec<Vec<String>> = sc.batches.iter().map(|b| b.iter().map(|j| reference[index[&(j.set, j.target, &j.q)]].clone()).collect()).collect();
 
     let Some(shared) = Shared::build(inputs) else {
-        return ScenarioResult { violation: None, steps: 0, switches: 0, schedule_digest: 0, log: 0, jobs: 0 };
+        return ScenarioResult { stalls: 0, violation: None, steps: 0, switches: 0, schedule_digest: 0, log: 0, jobs: 0 };
     };
     let shared = ForceShare(shared);
     let n = sc.batches.len();
@@ -466,6 +483,7 @@ pub fn run_scenario(sc: &Scenario, use_baton: bool) -> ScenarioResult {
         handles.into_iter().map(|h| h.join().unwrap_or_default()).collect()
     });
     let (steps, switches, schedule_digest) = baton.summary();
+    let stalls = baton.stalls();
     let mut log = Digest::default();
     log.u64(schedule_digest);
     let mut violation = None;
@@ -515,7 +533,14 @@ pub fn run_scenario(sc: &Scenario, use_baton: bool) -> ScenarioResult {
     if violation.is_none() {
         violation = std::thread::scope(|s| s.spawn(|| churn_phase(inputs)).join().unwrap_or(None));
     }
-    ScenarioResult { violation, steps, switches, schedule_digest, log: log.finish(), jobs: total_jobs }
+    // one scenario in 6 / in 12 (by its baton seed; thread creation is the cost): pool workers over handle generations, iterator hand-off
+    if violation.is_none() && sc.baton_seed % 6 == 0 {
+        violation = guarded(|| generation_phase(inputs)).unwrap_or(None);
+    }
+    if violation.is_none() && sc.baton_seed % 12 == 1 {
+        violation = guarded(|| handoff_phase(inputs)).unwrap_or(None);
+    }
+    ScenarioResult { stalls, violation, steps, switches, schedule_digest, log: log.finish(), jobs: total_jobs }
 }
 
 // ---------------------------------------------------------------------------------------------
@@ -529,7 +554,7 @@ fn churn_phase(inputs: &Inputs) -> Option<(String, String)> {
         return None;
     }
     // reference: fresh handles over the original, separately allocated bytes
-    let probes = |sh: &HandleSet<'_>, class: &str| -> Vec<String> {
+    let probes = |sh: &HandleSet<'_, '_, '_>, class: &str| -> Vec<String> {
         let mut v: Vec<String> = [Query::MapHasLineInfo, Query::MapIsValid, Query::MapSummary, Query::MapUuid].iter().map(|q| api::answer_mapping(&sh.mapping, q)).collect();
         let q = Query::Class(class.to_string());
         v.push(cur::answer_cache(&sh.cache, &q));
@@ -582,6 +607,207 @@ fn churn_phase(inputs: &Inputs) -> Option<(String, String)> {
             }
             Ok(None) => {}
             Err(p) => return Some((format!("panic-in-churn-phase {}", panic_class(&p)), format!("panic while re-creating handles over a reused buffer: {}", p))),
+        }
+    }
+    None
+}
+
+/// Handle generations served by long-lived pool workers. The workers outlive every handle; each
+/// generation's handles are created AND dropped by the main thread while the workers are parked, and
+/// consecutive generations are parsed from different content with the same class names at shifted
+/// indices. State a worker keeps about "the handle" (thread-locals keyed by a recycled id, by an
+/// address that is reused, ...) then meets a different handle.
+fn generation_phase(inputs: &Inputs) -> Option<(String, String)> {
+    use std::sync::{Arc, Barrier, Mutex};
+    let base = &inputs.mappings[0];
+    // same content plus one class that sorts before everything: every index shifts by one
+    let mut shifted: Vec<u8> = b"x.First -> 0first:\n    1:1:void f():1:1 -> a\n".to_vec();
+    shifted.extend_from_slice(base);
+    let gens: Vec<Inputs> = [base.clone(), shifted, base.clone()].iter().filter_map(|m| Inputs::new(std::slice::from_ref(m))).collect();
+    if gens.len() != 3 {
+        return None;
+    }
+    let probes: Vec<Job> = {
+        let classes = crate::universe::scan(base);
+        let mut v = Vec::new();
+        for c in classes.iter().take(4) {
+            v.push(Job { via_clone: false, set: 0, target: Target::Cache, q: Query::Class(c.obf.clone()) });
+            v.push(Job { via_clone: false, set: 0, target: Target::Mapper, q: Query::Class(c.obf.clone()) });
+            if let Some((m, mi)) = c.methods.iter().next() {
+                let line = mi.ranges.first().map(|r| r.0).unwrap_or(1);
+                v.push(Job { via_clone: false, set: 0, target: Target::Cache, q: Query::FrameLine { class: c.obf.clone(), method: m.clone(), line, file: None } });
+                v.push(Job { via_clone: false, set: 0, target: Target::MapperParams, q: Query::Method(c.obf.clone(), m.clone()) });
+            }
+        }
+        v.push(Job { via_clone: false, set: 0, target: Target::Mapping, q: Query::MapSummary });
+        v
+    };
+    if probes.len() < 2 {
+        return None;
+    }
+    let reference: Vec<Vec<String>> = gens
+        .iter()
+        .map(|g| match Shared::build(g) {
+            Some(sh) => probes.iter().map(|j| guarded_answer(&sh, j, &mut || false)).collect(),
+            None => Vec::new(),
+        })
+        .collect();
+    let n_workers = 2;
+    let barrier = Barrier::new(n_workers + 1);
+    let slot: Mutex<Option<Arc<ForceShare<Shared<'_, '_, '_>>>>> = Mutex::new(None);
+    let probes = &probes;
+    let answers: Vec<Vec<Vec<String>>> = std::thread::scope(|s| {
+        let hs: Vec<_> = (0..n_workers)
+            .map(|w| {
+                let barrier = &barrier;
+                let slot = &slot;
+                let n_gens = gens.len();
+                s.spawn(move || {
+                    let mut out: Vec<Vec<String>> = Vec::new();
+                    for _ in 0..n_gens {
+                        barrier.wait(); // a generation has been published
+                        let h = slot.lock().unwrap().clone();
+                        let a: Vec<String> = match &h {
+                            Some(h) => {
+                                let sh = h.get();
+                                // worker 1 asks in reverse order
+                                let idx: Vec<usize> = if w == 0 { (0..probes.len()).collect() } else { (0..probes.len()).rev().collect() };
+                                let mut a = vec![String::new(); probes.len()];
+                                for i in idx {
+                                    a[i] = guarded_answer(sh, &probes[i], &mut || false);
+                                }
+                                a
+                            }
+                            None => Vec::new(),
+                        };
+                        drop(h); // the worker lets go before the main thread drops the generation
+                        out.push(a);
+                        barrier.wait(); // done with this generation
+                    }
+                    out
+                })
+            })
+            .collect();
+        for g in &gens {
+            let built = Shared::build(g).map(|sh| Arc::new(ForceShare(sh)));
+            *slot.lock().unwrap() = built;
+            barrier.wait();
+            barrier.wait();
+            let last = slot.lock().unwrap().take();
+            drop(last); // dropped here, on a thread that never queried it
+        }
+        hs.into_iter().map(|h| h.join().unwrap_or_default()).collect()
+    });
+    for (w, per_gen) in answers.iter().enumerate() {
+        for (g, a) in per_gen.iter().enumerate() {
+            for (i, got) in a.iter().enumerate() {
+                if reference[g].get(i) != Some(got) {
+                    return Some((
+                        format!("answer-depends-on-earlier-handle-generation target={}", probes[i].target.name()),
+                        format!(
+                            "pool worker {} on handle generation {} (earlier generations were dropped by another thread): {} -> {:?}, alone on fresh handles -> {:?}",
+                            w,
+                            g,
+                            probes[i].describe(),
+                            got,
+                            reference[g].get(i)
+                        ),
+                    ));
+                }
+            }
+        }
+    }
+    None
+}
+
+/// A half-consumed frame iterator is moved to another thread and finished there (the iterator types
+/// are `Send`); the receiving thread has issued 0..2 frame queries of its own before.
+fn handoff_phase(inputs: &Inputs) -> Option<(String, String)> {
+    struct ForceSend<T>(T);
+    unsafe impl<T> Send for ForceSend<T> {}
+    let sh = Shared::build(inputs)?;
+    let set = &sh.sets[0];
+    let classes = crate::universe::scan(&inputs.mappings[0]);
+    let mut frames: Vec<(String, String, usize)> = Vec::new();
+    for c in classes.iter().take(6) {
+        for (m, mi) in c.methods.iter().take(3) {
+            for r in mi.ranges.iter().take(2) {
+                frames.push((c.obf.clone(), m.clone(), r.0));
+            }
+        }
+    }
+    frames.truncate(4);
+    let render = |f: &cur::StackFrame<'_>| format!("{}|{}|{:?}|{}", f.class(), f.method(), f.file(), f.line());
+    let shared = ForceShare((set, &frames));
+    for (ci, (c, m, l)) in frames.iter().enumerate() {
+        for use_cache in [true, false] {
+            let frame = cur::StackFrame::new(c, m, *l);
+            let alone: Vec<String> =
+                if use_cache { set.cache.remap_frame(&frame).map(|f| render(&f)).collect() } else { set.mapper.remap_frame(&frame).map(|f| render(&f)).collect() };
+            if alone.len() < 2 {
+                continue;
+            }
+            for warm in 0..3usize {
+                let shared = &shared;
+                let frame = &frame;
+                let got: Vec<String> = std::thread::scope(|s| {
+                    if use_cache {
+                        let (first, it) = s
+                            .spawn(move || {
+                                let (set, _) = shared.get();
+                                let mut it = set.cache.remap_frame(frame);
+                                let first = it.next().map(|f| render(&f));
+                                (first, ForceSend(it))
+                            })
+                            .join()
+                            .ok()?;
+                        let rest: Vec<String> = s
+                            .spawn(move || {
+                                let (set, frames) = shared.get();
+                                for (c2, m2, l2) in frames.iter().cycle().skip(ci + 1).take(warm) {
+                                    let _ = set.cache.remap_frame(&cur::StackFrame::new(c2, m2, *l2)).count();
+                                }
+                                let it = it;
+                                it.0.map(|f| render(&f)).collect()
+                            })
+                            .join()
+                            .ok()?;
+                        Some(first.into_iter().chain(rest).collect())
+                    } else {
+                        let (first, it) = s
+                            .spawn(move || {
+                                let (set, _) = shared.get();
+                                let mut it = set.mapper.remap_frame(frame);
+                                let first = it.next().map(|f| render(&f));
+                                (first, ForceSend(it))
+                            })
+                            .join()
+                            .ok()?;
+                        let rest: Vec<String> = s
+                            .spawn(move || {
+                                let (set, frames) = shared.get();
+                                for (c2, m2, l2) in frames.iter().cycle().skip(ci + 1).take(warm) {
+                                    let _ = set.mapper.remap_frame(&cur::StackFrame::new(c2, m2, *l2)).count();
+                                }
+                                let it = it;
+                                it.0.map(|f| render(&f)).collect()
+                            })
+                            .join()
+                            .ok()?;
+                        Some(first.into_iter().chain(rest).collect())
+                    }
+                })
+                .unwrap_or_default();
+                if got != alone {
+                    return Some((
+                        format!("iterator-continued-on-another-thread-differs target={}", if use_cache { "cache" } else { "mapper" }),
+                        format!(
+                            "remap_frame({:?},{:?},{}) consumed one step on thread A and finished on thread B (which had issued {} frame queries before): {:?}, on one thread: {:?}",
+                            c, m, l, warm, got, alone
+                        ),
+                    ));
+                }
+            }
         }
     }
     None
@@ -706,7 +932,7 @@ pub fn main(env: &Env) -> i32 {
     ];
     let seed = env.seed;
     let thorough = env.thorough;
-    let n = if thorough { env.scaled(150_000) } else { env.scaled(6_000) };
+    let n = if thorough { env.scaled(100_000) } else { env.scaled(3_000) };
     let corpus: Vec<(String, Vec<u8>)> = gen::corpus(false).into_iter().filter(|(_, b)| b.len() < 40_000).collect();
     rep.rule = format!(
         "{} seeded scenarios + {} corpus-file scenarios: a generated mapping (0..8 classes x 0..10 members) is written and parsed once; one cache, one mapper, one mapper-with-params and one mapping are shared by 2..{} real threads; \
@@ -719,7 +945,8 @@ pub fn main(env: &Env) -> i32 {
         if thorough { 40 } else { 30 }
     );
     let n_total = n + corpus.len() as u64;
-    let (st, mut vs) = run_indexed(n_total, env.workers, 2, |i, st, vs| {
+    // (every scenario creates its own threads; more than ~6 scenario workers only contend in the kernel)
+    let (st, mut vs) = run_indexed(n_total, env.workers.min(6), 2, |i, st, vs| {
         let mut rng = Rng::new(run_seed(seed, "C20", i));
         let mapping = if i < n { gen::gen_case(&mut rng, 8, 10).1 } else { corpus[(i - n) as usize].1.clone() };
         let sc = build_scenario(&mut rng, mapping, if thorough { 16 } else { 12 }, if thorough { 40 } else { 30 });
@@ -727,6 +954,7 @@ pub fn main(env: &Env) -> i32 {
         st.add("jobs", r.jobs);
         st.add("scheduling_points", r.steps);
         st.add("context_switches", r.switches);
+        st.add("baton_stalls_resolved", r.stalls);
         st.inc(&format!("threads.{}", sc.batches.len()));
         st.inc(match sc.policy {
             Policy::Uniform => "policy.uniform",
@@ -791,12 +1019,12 @@ pub fn miri_main(args: &[String]) -> i32 {
     if arg_value(args, "--mode").as_deref() == Some("crowd") {
         return miri_crowd(wseed, arg_value(args, "--threads").and_then(|s| s.parse().ok()).unwrap_or(12));
     }
-    let hammer: usize = arg_value(args, "--hammer").and_then(|s| s.parse().ok()).unwrap_or(24);
+    let hammer: usize = arg_value(args, "--hammer").and_then(|s| s.parse().ok()).unwrap_or(12);
     let n_threads: usize = arg_value(args, "--threads").and_then(|s| s.parse().ok()).unwrap_or(3);
     let mut rng = Rng::new(run_seed(wseed, "C20.miri", 0));
     // small but non-trivial mapping: three classes, an inline group, overloads, a source file
     let mapping: Vec<u8> = if wseed % 2 == 0 {
-        b"com.example.Foo -> a.a:\n# {\"id\":\"sourceFile\",\"fileName\":\"Foo.kt\"}\n    1:3:void run():10:12 -> a\n    4:4:void x.Y.inl():7:7 -> a\n    4:4:void go(int):20 -> a\n    void go(int,int) -> b\ncom.example.Bar -> a.b:\n    5:9:int calc(java.lang.String):30:34 -> a\n    void <init>() -> <init>\ncom.example.Baz -> a.c:\n    1:1:void z():1:1 -> a\ncom.example.Big -> a.d:\n    1:1:void same():1:1 -> z\n    2:2:void same():2:2 -> z\n    3:3:void same():3:3 -> z\n    4:4:void same():4:4 -> z\n    5:5:void same():5:5 -> z\n    6:6:void same():6:6 -> z\n    7:7:void same():7:7 -> z\n    8:8:void other():8:8 -> z\n    1:1:void uniq():1:1 -> u\n    2:2:void uniq():2:2 -> u\n    3:3:void uniq():3:3 -> u\n    4:4:void uniq():4:4 -> u\n    5:5:void uniq():5:5 -> u\n    6:6:void uniq():6:6 -> u\n    7:7:void uniq():7:7 -> u\n".to_vec()
+        b"com.example.Foo -> a.a:\n# {\"id\":\"sourceFile\",\"fileName\":\"Foo.kt\"}\n    1:3:void run():10:12 -> a\n    4:4:void x.Y.inl():7:7 -> a\n    4:4:void go(int):20 -> a\n    void go(int,int) -> b\ncom.example.Bar -> a.b:\n    5:9:int calc(java.lang.String):30:34 -> a\n    void <init>() -> <init>\ncom.example.Baz -> a.c:\n    1:1:void z():1:1 -> a\ncom.example.Big -> a.d:\n    1:1:void same():1:1 -> z\n    2:2:void same():2:2 -> z\n    3:3:void same():3:3 -> z\n    4:4:void same():4:4 -> z\n    5:5:void same():5:5 -> z\n    6:6:void same():6:6 -> z\n    7:7:void same():7:7 -> z\n    8:8:void other():8:8 -> z\n    1:1:void uniq():1:1 -> u\n    2:2:void uniq():2:2 -> u\n    3:3:void uniq():3:3 -> u\n    4:4:void uniq():4:4 -> u\n    5:5:void uniq():5:5 -> u\n    6:6:void uniq():6:6 -> u\n    7:7:void uniq():7:7 -> u\ncom.example.Touch -> a.e:\n    1:11:void seg0():1:11 -> t\n    11:21:void seg1():11:21 -> t\n    21:31:void seg2():21:31 -> t\n    31:41:void seg3():31:41 -> t\n    41:51:void seg4():41:51 -> t\n    51:61:void seg5():51:61 -> t\n    61:71:void seg6():61:71 -> t\n    71:81:void seg7():71:81 -> t\n    81:91:void seg8():81:91 -> t\n    91:101:void seg9():91:101 -> t\n    101:111:void seg10():101:111 -> t\n    111:121:void seg11():111:121 -> t\n    121:131:void seg12():121:131 -> t\n    131:141:void seg13():131:141 -> t\n    141:151:void seg14():141:151 -> t\n    151:161:void seg15():151:161 -> t\n    161:171:void seg16():161:171 -> t\n    171:181:void seg17():171:181 -> t\n    181:191:void seg18():181:191 -> t\n    191:201:void seg19():191:201 -> t\n    201:211:void seg20():201:211 -> t\n    211:221:void seg21():211:221 -> t\n    221:231:void seg22():221:231 -> t\n    231:241:void seg23():231:241 -> t\n    241:251:void seg24():241:251 -> t\n    251:261:void seg25():251:261 -> t\n    261:271:void seg26():261:271 -> t\n    271:281:void seg27():271:281 -> t\n    281:291:void seg28():281:291 -> t\n    291:301:void seg29():291:301 -> t\n    301:311:void seg30():301:311 -> t\n    311:321:void seg31():311:321 -> t\n    321:331:void seg32():321:331 -> t\n    331:341:void seg33():331:341 -> t\n".to_vec()
     } else {
         let mut m = gen::gen_case(&mut rng, 4, 4).1;
         if crate::universe::scan(&m).iter().filter(|c| !c.methods.is_empty()).count() < 2 {
@@ -815,7 +1043,8 @@ pub fn miri_main(args: &[String]) -> i32 {
     let mapping2: Vec<u8> = {
         let t = String::from_utf8_lossy(&mapping).to_string();
         let v = t.replace("com.example", "org.exampel").replace("x.", "y.");
-        if v != t { v.into_bytes() } else { b"q.Q -> a.a:\n    1:1:void other():9:9 -> a\n".to_vec() }
+        let _ = v;
+        b"q.Q -> a.a:\n    1:1:void other():9:9 -> a\nq.R -> a.b:\n".to_vec()
     };
     let inputs = Inputs::new(&[mapping.clone(), mapping2.clone()]).expect("inputs");
     let inputs = &inputs;
@@ -831,7 +1060,7 @@ pub fn miri_main(args: &[String]) -> i32 {
         exp_frames_cache: Vec<(String, String, usize)>,
     }
     let probes: Vec<Probe> = {
-        let fresh_all = Shared::build(inputs).expect("fresh handles");
+        let fresh_all = Shared::build_with(inputs, false).expect("fresh handles");
         let fresh = &fresh_all.sets[0];
         classes
             .iter()
@@ -910,15 +1139,24 @@ pub fn miri_main(args: &[String]) -> i32 {
                 first_use.push(Job { via_clone: false, set: 0, target: t, q: Query::Method(c.obf.clone(), m.clone()) });
                 let line = mi.ranges.last().map(|r| r.0).unwrap_or(1);
                 first_use.push(Job { via_clone: false, set: 0, target: t, q: Query::FrameLine { class: c.obf.clone(), method: m.clone(), line, file: None } });
+                // a line shared by two touching ranges (end of one == start of the next), if any
+                if let Some(shared_line) = mi.ranges.iter().find_map(|r| mi.ranges.iter().find(|o| o.0 == r.1 && *o != r).map(|_| r.1)) {
+                    first_use.push(Job { via_clone: false, set: 0, target: t, q: Query::FrameLine { class: c.obf.clone(), method: m.clone(), line: shared_line, file: None } });
+                }
                 first_use.push(Job { via_clone: false, set: 0, target: t, q: Query::FrameParams { class: c.obf.clone(), method: m.clone(), params: mi.args.first().cloned().unwrap_or_default() } });
             }
+        }
+    }
+    if std::env::var("PGSIM_DEBUG").is_ok() {
+        for j in &first_use {
+            eprintln!("first_use: {}", j.describe());
         }
     }
     let first_use = &first_use;
     let barrier = std::sync::Barrier::new(n_threads);
     let barrier = &barrier;
 
-    let Some(shared) = Shared::build(inputs) else {
+    let Some(shared) = Shared::build_with(inputs, false) else {
         println!("MIRI-C20 harness: cannot build handles");
         return 2;
     };
@@ -981,7 +1219,7 @@ pub fn miri_main(args: &[String]) -> i32 {
     });
     // reference afterwards: each distinct job alone on fresh handles
     let mut d = Digest::default();
-    let fresh = Shared::build(inputs).expect("fresh handles");
+    let fresh = Shared::build_with(inputs, false).expect("fresh handles");
     let exp_uuid = api::answer_mapping(&fresh.sets[0].mapping, &Query::MapUuid);
     let mut memo: std::collections::HashMap<(usize, Target, &Query), String> = std::collections::HashMap::new();
     for (t, (uuid, bad, answers, first_answers)) in results.iter().enumerate() {
@@ -1040,7 +1278,7 @@ pub fn miri_crowd(wseed: u64, n_threads: usize) -> i32 {
         Job { via_clone: false, set: 0, target: Target::Mapper, q: Query::Signature("(La/a;La/b;)La/a;".into()) },
     ];
     let jobs = &jobs;
-    let Some(shared) = Shared::build(inputs) else { return 2 };
+    let Some(shared) = Shared::build_with(inputs, false) else { return 2 };
     let shared = ForceShare(shared);
     let barrier = std::sync::Barrier::new(n_threads);
     let barrier = &barrier;
@@ -1058,7 +1296,7 @@ pub fn miri_crowd(wseed: u64, n_threads: usize) -> i32 {
         hs.into_iter().map(|h| h.join().expect("worker thread panicked")).collect()
     });
     let mut d = Digest::default();
-    let own = Shared::build(inputs).expect("fresh handles");
+    let own = Shared::build_with(inputs, false).expect("fresh handles");
     for (k, j) in jobs.iter().enumerate() {
         let e = answer_job(&own, j, &mut || false);
         d.str(&e);
@@ -1130,7 +1368,7 @@ pub fn miri_longcall(wseed: u64, n_threads: usize) -> i32 {
         batches.push(b);
     }
     let batches = &batches;
-    let Some(shared) = Shared::build(inputs) else { return 2 };
+    let Some(shared) = Shared::build_with(inputs, false) else { return 2 };
     let shared = ForceShare(shared);
     let barrier = std::sync::Barrier::new(n_threads);
     let barrier = &barrier;
@@ -1152,7 +1390,7 @@ pub fn miri_longcall(wseed: u64, n_threads: usize) -> i32 {
             .collect();
         hs.into_iter().map(|h| h.join().expect("worker thread panicked")).collect()
     });
-    let own = Shared::build(inputs).expect("fresh handles");
+    let own = Shared::build_with(inputs, false).expect("fresh handles");
     let mut d = Digest::default();
     for t in 0..n_threads {
         for (i, j) in batches[t].iter().enumerate() {
